@@ -106,6 +106,36 @@ static uint64_t work(int id) {
             size_t l4 = libwifi_get_action_length(&ac); unsigned char *b4 = malloc(l4);
             libwifi_dump_action(&ac, b4, l4); h = fnv(h, b4, l4); free(b4); libwifi_free_action(&ac);
         }
+        {   /* an EAPOL-Key data frame (plain or QoS) that differs per thread and iteration - message 1..4, key data length, contents -
+               through every EAPOL routine and the data parser: a decode kept in a shared static shows as another thread's answer */
+            static const unsigned short kinfo[4] = {0x008a, 0x010a, 0x13ca, 0x030a};
+            int qos = (id + j) & 1, hl = qos ? 26 : 24, kdl = (id * 7 + j * 3) % 40;
+            unsigned char ef[26 + 8 + 99 + 40]; memset(ef, 0, sizeof ef);
+            ef[0] = qos ? 0x88 : 0x08; ef[4] = (unsigned char) id; ef[10] = (unsigned char) j;
+            unsigned char *bd = ef + hl;
+            bd[0] = 0xaa; bd[1] = 0xaa; bd[2] = 3; bd[6] = 0x88; bd[7] = 0x8e;
+            bd[8] = 2; bd[9] = 3; bd[10] = 0; bd[11] = (unsigned char) (95 + kdl); bd[12] = 2;
+            unsigned short ki = kinfo[(id + j / 2) & 3];
+            bd[13] = (unsigned char) (ki >> 8); bd[14] = (unsigned char) ki; bd[16] = 16;
+            for (int q = 17; q < 105; q++) bd[q] = (unsigned char) (id * 31 + j + q);
+            bd[105] = 0; bd[106] = (unsigned char) kdl;
+            for (int q = 0; q < kdl; q++) bd[107 + q] = (unsigned char) (id + q * 5 + j);
+            struct libwifi_frame ff;
+            if (libwifi_get_wifi_frame(&ff, ef, (size_t) (hl + 107 + kdl), 0) == 0) {
+                int hs = libwifi_check_wpa_handshake(&ff), msg = libwifi_check_wpa_message(&ff), kl = libwifi_get_wpa_key_data_length(&ff);
+                const char *ms = libwifi_get_wpa_message_string(&ff);
+                h = fnv(h, &hs, sizeof hs); h = fnv(h, &msg, sizeof msg); h = fnv(h, &kl, sizeof kl); h = fnv(h, ms, strlen(ms));
+                struct libwifi_wpa_auth_data wd;
+                if (libwifi_get_wpa_data(&ff, &wd) == 0) {
+                    h = fnv(h, &wd.key_info.information, 2); h = fnv(h, wd.key_info.nonce, 32); h = fnv(h, &wd.key_info.key_data_length, 2);
+                    if (wd.key_info.key_data_length) h = fnv(h, wd.key_info.key_data, wd.key_info.key_data_length);
+                    libwifi_free_wpa_data(&wd);
+                }
+                struct libwifi_data dd;
+                if (libwifi_parse_data(&dd, &ff) == 0) { h = fnv(h, dd.receiver, 6); h = fnv(h, &dd.body_len, sizeof dd.body_len); libwifi_free_data(&dd); }
+                libwifi_free_wifi_frame(&ff);
+            }
+        }
         unsigned char rm[6]; libwifi_random_mac(rm, (unsigned char *) "\x0a\x0b\x0c"); h = fnv(h, rm, 6);
         libwifi_random_mac(rm, NULL); h = fnv(h, rm, 6);
     }
